@@ -152,6 +152,11 @@ def widen(draw, schema, flags, depth=0):
         else:
             s["title"] = draw(st.sampled_from(["", "\x00", "\ud800", "123", "日本", "a" * 300, "None", "__class__"]))
         flags.add("odd-or-missing-title")
+    if "title" in s and draw(st.integers(0, 7)) == 0:
+        # many "_<digits>" groups that are NOT at the end (the de-duplication suffix is recognised by a regex)
+        k = draw(st.sampled_from([8, 24, 48, 200]))
+        s["title"] = draw(st.sampled_from(["mask", "Foo", ""])) + "_1" * k + draw(st.sampled_from(["_flags", "x", " ", "_", "_0a"]))
+        flags.add("suffix-heavy-title")
     for k, v in list(s.items()):
         if k in ("properties", "patternProperties", "dependencies") and isinstance(v, dict):
             for kk in list(v):
@@ -295,9 +300,37 @@ def history_predicate(case, stats):
     return fails
 
 
+def parse_apart(schema, seconds=30):
+    """Parse in a child process that can be KILLED: a regular-expression match that backtracks exponentially runs
+    inside the C matcher and does not notice an alarm signal.  -> 'done' | 'hang'."""
+    import json
+    import os
+    import subprocess
+    import sys
+
+    home = os.path.dirname(os.path.dirname(os.path.abspath(__file__)))
+    code = ("import sys, json, warnings; warnings.simplefilter('ignore'); from vlib import repo; "
+            "from statham.schema.parser import parse_element\n"
+            "try:\n    parse_element(json.load(sys.stdin))\nexcept Exception:\n    pass\n")
+    env = dict(os.environ, PYTHONPATH=os.pathsep.join([os.path.join(home, ".deps"), home]), PYTHONHASHSEED="0")
+    try:
+        subprocess.run([sys.executable, "-W", "ignore", "-c", code], input=json.dumps(schema).encode(), env=env,
+                       cwd=home, stdout=subprocess.DEVNULL, stderr=subprocess.DEVNULL, timeout=seconds)
+    except subprocess.TimeoutExpired:
+        return "hang"
+    except (TypeError, ValueError):
+        return "done"  # not JSON-serialisable: nothing to send
+    return "done"
+
+
 def predicate(case, stats):
     if case.get("mode") == "history":
         return history_predicate(case, stats)
+    if "suffix-heavy-title" in (case.get("flags") or []):
+        stats.extra["parsed_in_child_process"] = stats.extra.get("parsed_in_child_process", 0) + 1
+        if parse_apart(case["schema"]) == "hang":
+            stats.case(canon([case["schema"]]), True, ["flag:suffix-heavy-title", "parse:hang"])
+            return [{"sub": "termination", "kind": "parse-does-not-return-within-30s (child process killed)"}]
     try:
         return with_limit(20, lambda: evaluate(case, stats))
     except Hang:
